@@ -1,7 +1,11 @@
 // Unit c36_static_interpreter -- property C36 "Static manifest validation matches the bucket/proof lifecycle"
-// Real code: radix-transactions/src/manifest/static_manifest_interpreter.rs -- the id-lifecycle functions of
-// StaticManifestInterpreter (state vectors + every create/get/consume operation on buckets, proofs,
-// address reservations, named addresses and intents), and ProofSourceAmount::proof_kind.
+// Real code: radix-transactions/src/manifest/static_manifest_interpreter.rs -- StaticManifestInterpreter: the state
+// vectors, every create/get/consume operation on buckets, proofs, address reservations, named addresses and
+// intents, handle_instruction (incl. DROP_ALL_PROOFS), handle_invocation, handle_resource_assertion,
+// handle_verification, handle_preallocated_addresses, verify_final_instruction, handle_wrap_up,
+// NextInstructionRequirement, ValidationRuleset constructors; manifest_instruction_effects.rs ::
+// ProofSourceAmount::proof_kind, BucketSourceAmount::resource_address.
+// (second unit of C36; units/c36_id_validator covers BasicManifestValidator)
 use vstd::prelude::*;
 verus! {
 /*@include shims/rt.rs @*/
@@ -106,17 +110,37 @@ pub mod env {
         pub event: TraversalEvent<'de>,
     }
     pub enum ExpectedStart { PayloadPrefix(u8), Value }
+    /// `evs` is the complete sequence of events (up to and including `End`) that the traverser emits for
+    /// `payload`. Uninterpreted: it is DEFINED by what the traverser does (see next_event), nothing is assumed
+    /// about the SBOR format.
+    pub uninterp spec fn is_traversal_of(payload: Seq<u8>, evs: Seq<TraversalEvent>) -> bool;
     #[verifier::external_body]
     pub struct ManifestTraverser<'de> { x: &'de u8 }
     impl<'de> ManifestTraverser<'de> {
+        /// the payload being traversed
+        pub uninterp spec fn input(&self) -> Seq<u8>;
+        /// history variable: the events handed out so far
+        pub uninterp spec fn emitted(&self) -> Seq<TraversalEvent<'de>>;
         #[verifier::external_body]
-        pub fn new(input: &'de [u8], expected_start: ExpectedStart, config: VecTraverserConfig) -> Self { unimplemented!() }
-        /// any event may come next (the payload is not modelled)
+        pub fn new(input: &'de [u8], expected_start: ExpectedStart, config: VecTraverserConfig) -> (r: Self)
+            ensures r.input() == input@, r.emitted() == Seq::<TraversalEvent<'de>>::empty()
+        { unimplemented!() }
+        /// any event may come next (the payload format is not modelled); it is appended to the history
         #[verifier::external_body]
-        pub fn next_event(&mut self) -> LocatedTraversalEvent<'de> { unimplemented!() }
+        pub fn next_event(&mut self) -> (r: LocatedTraversalEvent<'de>)
+            ensures final(self).input() == old(self).input(),
+                    final(self).emitted() == old(self).emitted().push(r.event),
+                    r.event is End ==> is_traversal_of(final(self).input(), final(self).emitted()),
+        { unimplemented!() }
+    }
+    impl ManifestValue {
+        /// the manifest-SBOR encoding of the value
+        pub uninterp spec fn encoding(&self) -> Seq<u8>;
     }
     #[verifier::external_body]
-    pub fn manifest_encode(value: &ManifestValue) -> Result<Vec<u8>, EncodeError> { unimplemented!() }
+    pub fn manifest_encode(value: &ManifestValue) -> (r: Result<Vec<u8>, EncodeError>)
+        ensures r matches Ok(v) ==> v@ == value.encoding()
+    { unimplemented!() }
 
     // ---- predicates on payload values (resource-assertion checks; C37 covers their meaning)
     impl Decimal { #[verifier::external_body] pub fn is_negative(&self) -> bool { unimplemented!() } }
@@ -1140,6 +1164,21 @@ pub mod unit {
                 ret is Continue ==> old(self).manifest.subintent(),
         @*/
 
+        /// every id that occurred in the traversed arguments has been used up: buckets, proofs and address
+        /// reservations exist and are no longer live, named addresses exist
+        pub open spec fn passed_ids_consumed(&self, evs: Seq<TraversalEvent>) -> bool {
+            forall|i: int| 0 <= i < evs.len() ==> match #[trigger] evs[i] {
+                TraversalEvent::TerminalValue(traversal::TerminalValueRef::Custom(ManifestCustomTerminalValueRef(v))) => match v {
+                    ManifestCustomValue::Bucket(b) => self.bucket_created(b) && !self.bucket_live(b),
+                    ManifestCustomValue::Proof(p) => self.proof_created(p) && !self.proof_live(p),
+                    ManifestCustomValue::AddressReservation(r) => self.reservation_created(r) && !self.reservation_live(r),
+                    ManifestCustomValue::Address(ManifestAddress::Named(a)) => self.named_address_created(a),
+                    _ => true,
+                },
+                _ => true,
+            }
+        }
+
         #[verifier::exec_allows_no_decreases_clause]
         /*@fn radix-transactions/src/manifest/static_manifest_interpreter.rs :: impl<'a, M: ReadableManifest + ?Sized> StaticManifestInterpreter<'a, M> :: fn handle_invocation
         @sig
@@ -1153,6 +1192,9 @@ pub mod unit {
                 old(visitor).quiet() ==> final(visitor).quiet(),
                 // the callee / kind of the invocation is acceptable
                 ret is Continue ==> old(self).invocation_target_ok(invocation_kind),
+                // every bucket / proof / address reservation found in the arguments was consumed (it was live when
+                // its turn came: consume_* accepts nothing else), every named address found there was declared
+                ret is Continue ==> exists|evs: Seq<TraversalEvent>| #[trigger] is_traversal_of(args.encoding(), evs) && final(self).passed_ids_consumed(evs),
                 // a proof cannot be passed to another intent
                 ret is Continue && (invocation_kind is YieldToParent || invocation_kind is YieldToChild) ==> old(self).same_proofs(final(self)),
         @loop 1
@@ -1162,9 +1204,13 @@ pub mod unit {
                 old(self).invocation_target_ok(invocation_kind),
                 yields_across_intent == (invocation_kind is YieldToParent || invocation_kind is YieldToChild),
                 yields_across_intent ==> old(self).same_proofs(self),
+                traverser.input() == args.encoding(),
+                self.passed_ids_consumed(traverser.emitted()),
                 old(self).same_config(self), old(self).same_lengths(self),
                 old(self).same_named_addresses(self), old(self).same_intents(self),
                 old(self).no_resurrection(self),
+            ensures
+                is_traversal_of(traverser.input(), traverser.emitted()),
         @before <<let event = traverser.next_event()>> #1
             let ghost pre = *self;
         @after <<self.get_existing_named_address::<V>(named_address)>> #1
@@ -1233,9 +1279,11 @@ pub mod unit {
                             &&& forall|b: ManifestBucket| f.bucket_live(b) ==> f.bucket_state@[b.0 as int].proof_locks == 0 && !locked(f.proof_state@, b)
                         }
                 },
-                ManifestInstructionEffect::Invocation { kind, .. } => {
+                ManifestInstructionEffect::Invocation { kind, args } => {
                     &&& self.same_lengths(f) && self.same_named_addresses(f) && self.same_intents(f)
                     &&& self.invocation_target_ok(kind)
+                    &&& exists|evs: Seq<TraversalEvent>| #[trigger] is_traversal_of(args.encoding(), evs) && f.passed_ids_consumed(evs)
+                    &&& (kind is YieldToParent || kind is YieldToChild) ==> self.same_proofs(f)
                 },
                 ManifestInstructionEffect::CreateAddressAndReservation { package_address, blueprint_name } => {
                     let r = ManifestAddressReservation(self.address_reservation_state@.len() as u32);
